@@ -131,15 +131,7 @@ def bumpRG (ex p : Meta) (h : Bool) : Nat :=
 
 theorem routeChanged_rg (a b : Meta) (g : Nat) : routeChanged a { b with routeGen := g } = routeChanged a b := rfl
 
-theorem bump_eq (ex p : Meta) (h : Bool) : bump ex p h = { p with routeGen := bumpRG ex p h } := by
-  unfold bump bumpRG
-  simp only []
-  by_cases c1 : (¬ h = true ∧ p.routeGen < ex.routeGen)
-  · rw [if_pos c1, if_pos c1]
-    simp only [routeChanged_rg]
-    split <;> rename_i a <;> split <;> rename_i b <;> first | rfl | exact absurd a b | exact absurd b a
-  · rw [if_neg c1, if_neg c1]
-    split <;> rename_i a <;> split <;> rename_i b <;> first | rfl | exact absurd a b | exact absurd b a
+theorem bump_eq (ex p : Meta) (h : Bool) : bump ex p h = { p with routeGen := bumpRG ex p h } := rfl
 
 theorem nextRG_ge (g : Nat) : g ≤ nextRG g := by unfold nextRG; split <;> omega
 theorem nextRG_gt (g : Nat) (h : g < u64max) : g < nextRG g := by
